@@ -153,6 +153,8 @@ def buckets(case, io):
         b.append('has-jr')
     if io['too_many_commas']:
         b.append('too-many-commas')
+    if any(ord(c) > 127 for c in case['s']):
+        b.append('non-ascii')
     return b
 
 
@@ -162,6 +164,7 @@ def nontrivial(case, io):
 
 def corpus():
     out = list(corpus_for(ID))
+    out.extend({'op': 'person', 's': n} for n in UNICODE_NAMES)
     try:
         import importlib.util
         import os
@@ -175,24 +178,60 @@ def corpus():
     return out
 
 
-def _shapes(maxtok):
+def _shapes(tier):
+    """(tokens, separators): every shape over the ASCII classes up to 3 (quick) / 4 (thorough) tokens as before; every shape with
+    at least one non-ASCII class up to 3 tokens over all classes (quick: one separator kind for 3 tokens), thorough also 4 tokens
+    over the reduced class set CLASSES4 with blanks."""
+    maxtok = 3 if tier == 'quick' else 4
     for n in range(1, maxtok + 1):
         for classes in itertools.product(CLASSES, repeat=n):
-            yield [TOKENS[c] for c in classes]
+            yield [TOKENS[c] for c in classes], (SEPS if n <= 2 or tier == 'thorough' else SEPS[:2])
+    allc = CLASSES + UCLASSES
+    for n in range(1, 4):
+        for classes in itertools.product(allc, repeat=n):
+            if all(c in TOKENS for c in classes):
+                continue
+            yield [ALLTOKENS[c] for c in classes], (SEPS if n <= 2 or tier == 'thorough' else SEPS[:1])
+    if tier != 'quick':
+        for classes in itertools.product(CLASSES4, repeat=4):
+            if all(c in TOKENS for c in classes):
+                continue
+            yield [ALLTOKENS[c] for c in classes], SEPS[:1]
+
+
+def _class_ranges():
+    """inclusive code-point ranges of the three single-character predicates of the running interpreter"""
+    out = []
+    for pred in (str.isalpha, str.isupper, str.islower):
+        start = None
+        for cp in range(0x110000):
+            ok = not (0xD800 <= cp <= 0xDFFF) and pred(chr(cp))
+            if ok and start is None:
+                start = cp
+            elif not ok and start is not None:
+                out.append((start, cp - 1))
+                start = None
+        if start is not None:
+            out.append((start, 0x10FFFF))
+    return out
+
+
+def _okcp(cp):
+    return 0 < cp < 0x110000 and not (0xD800 <= cp <= 0xDFFF)
 
 
 def gen_cases(tier, rng, info):
     cases = []
     maxtok = 3 if tier == 'quick' else 4
     nshape = 0
-    for toks in _shapes(maxtok):
+    for toks, seps in _shapes(tier):
         nshape += 1
         n = len(toks)
         # commas after any subset of token positions (0..3 commas), one separator kind per name
         positions = list(range(n))
         for k in range(0, min(3, n) + 1):
             for commas in itertools.combinations(positions, k):
-                for sep in (SEPS if n <= 2 or tier == 'thorough' else SEPS[:2]):
+                for sep in seps:
                     s = ''
                     for i, t in enumerate(toks):
                         s += t
@@ -208,17 +247,35 @@ def gen_cases(tier, rng, info):
             cases.append({'op': 'person', 's': ''.join(tup)})
             nstr += 1
     info['exhaustive'] = True
-    info['scope'] = '%d token shapes (<=%d tokens, 9 token classes) x comma placements x separators; all %d strings of length <=%d over %r' % (
-        nshape, maxtok, nstr, maxlen, ALPHA)
-    pool = list(TOKENS.values()) + ['de', 'la', 'Jr.', 'III', '{\\relax van}', 'd\'Aviano', '{', '}', '\\', '~', ',', ' ', '  ', 'and', '{{\\LaTeX}}', '\\~{n}', 'A.', 'x']
-    for _ in range(3000 if tier == 'quick' else 60000):
+    info['scope'] = ('%d token shapes (<=%d tokens over the %d ASCII token classes; <=3 tokens over all %d classes incl. %d non-ASCII ones%s) '
+                     'x comma placements x separators; all %d strings of length <=%d over %r' % (
+                         nshape, maxtok, len(CLASSES), len(ALLTOKENS), len(UCLASSES),
+                         '' if tier == 'quick' else '; 4 tokens over %d classes' % len(CLASSES4), nstr, maxlen, ALPHA))
+    apool = list(TOKENS.values()) + ['de', 'la', 'Jr.', 'III', '{\\relax van}', 'd\'Aviano', '{', '}', '\\', '~', ',', ' ', '  ', 'and', '{{\\LaTeX}}', '\\~{n}', 'A.', 'x']
+    pool = apool + list(UTOKENS.values()) + UPOOL
+    for i in range(3000 if tier == 'quick' else 60000):
         n = rng.randint(1, 9)
-        s = ''.join(rng.choice(pool) + rng.choice(['', ' ', ' ', ' ', '~', ', ', ',']) for _ in range(n))
+        pl = apool if i % 2 else pool
+        s = ''.join(rng.choice(pl) + rng.choice(['', ' ', ' ', ' ', '~', ', ', ',']) for _ in range(n))
         if rng.random() < 0.02:
             s += '{' * rng.choice([99, 100, 101, 102]) + 'x' + '}' * 100
         cases.append({'op': 'person', 's': s})
+    # the character tables themselves: a token starting with a code point at / next to a boundary of the interpreter's
+    # isalpha / isupper / islower ranges, or with a random code point, in a position where its case matters
+    ranges = _class_ranges()
+    tails = ['', 'x', 'X', '1', '{x}']
+    frames = ['%s Last', 'First %s Last', '%s Last, First', 'von %s Last, Jr, First', '1%s Last', "{\\'%s}x Last", '%s']
+    for _ in range(1500 if tier == 'quick' else 40000):
+        if rng.random() < 0.7:
+            a, b = rng.choice(ranges)
+            cp = rng.choice([a - 1, a, b, b + 1])
+        else:
+            cp = rng.choice([rng.randint(0x80, 0x2FFF), rng.randint(0x80, 0xFFFF), rng.randint(0x10000, 0x323AF)])
+        if not _okcp(cp):
+            continue
+        cases.append({'op': 'person', 's': rng.choice(frames) % (chr(cp) + rng.choice(tails))})
     for _ in range(300 if tier == 'quick' else 5000):
-        cases.append({'op': 'personparts', 's': rng.choice(['', 'von Last, First', 'A B']),
+        cases.append({'op': 'personparts', 's': rng.choice(['', 'von Last, First', 'A B', '\u6bdb \u6cfd\u4e1c', '\u02bbAkahi \u00e9 Kealoha, Leilani']),
                       'first': rng.choice(pool) + ' ' + rng.choice(pool), 'middle': rng.choice(pool),
                       'prelast': rng.choice(['', 'von', 'de la']), 'last': rng.choice(pool), 'lineage': rng.choice(['', 'Jr', 'III~x'])})
     return cases
@@ -231,9 +288,15 @@ LEVEL_TEXT = ('Machine-checked proofs (Lean 4) about the function-by-function mo
               '(C04_tokens_preserved); the von/Last boundary and the case rule are characterised on the model output (C04_von_longest, '
               'C04_case_rule, C04_case_of_token); explicit parts use the same tokeniser (C04_parts_same_tokenisation); brace atomicity is '
               'reduced to the tokeniser (C04_braces_atomic, proved for the tokeniser under C12). The model is tied to the code by the '
-              'differential check (exhaustive token-shape scope + random + the parse_name_test table) and the oracle evaluating the spec.')
+              'differential check (exhaustive token-shape scope incl. non-ASCII token classes + random + the parse_name_test table) and the '
+              'oracle evaluating the spec. Letters and case are the interpreter\'s Unicode classes (str.isalpha / isupper / islower on one '
+              'character), in the model and in the rule alike (C04_char_classes).')
 LEVEL_NOTE = ('Trusted: Lean kernel; axioms propext/Classical.choice/Quot.sound only; the hand-written model (Model/Names.lean, '
-              'Model/TeXString.lean) corresponds to pybtex only as far as the differential check explores; letters are ASCII in the model; '
+              'Model/TeXString.lean) corresponds to pybtex only as far as the differential check explores; the character classes are the '
+              'range tables regenerated from the running interpreter (Gen/Unicode.lean; sortedness, upper/lower disjointness, ASCII '
+              'coincidence and "structural characters are in no class" are re-checked by the kernel on every regeneration); BibTeX itself '
+              'knows ASCII letters only, so beyond ASCII the rule is BibTeX\'s rule read with Python\'s classes (a cased first character '
+              'decides; else the first brace-level-0 letter or special character; a letter without case makes the token caseless); '
               'fidelity of Spec/Names.lean to BibTeX itself is by reading (no binary to compare with). parseName is _parse_string on the '
               'stripped non-empty argument (find_pos after repair #3). Beyond the nesting limit model and rule differ for a token that starts '
               'with a lower-case letter (C04_matches_spec_neg: the code answers from the first character, the rule assigns no case); '
